@@ -1,33 +1,2 @@
-"""C20 ThresholdCounter: contracts in contracts/tc.py discharged by pyvc; bounded stand-in in bounded/C20.py"""
-from pyvc.engine import Engine
-from pyvc import driver
-from contracts import tc
-
-LEVEL = 'other'
-LEVEL_TEXT = ('Deductive: the real bodies of ThresholdCounter.add/get/__getitem__/__contains__/__len__ are symbolically '
-              'executed from /repo source against the lossy-counting representation invariant with ghost true counts '
-              '(never over-counts, under-count <= floor(total/w), frequent keys present, total counts additions) and every '
-              'obligation is discharged by z3 for all states and keys, unbounded. Bounded (not proof): update() argument '
-              'kinds, derived views (items/keys/values/elements/most_common/common+uncommon), size clause, by exhaustive '
-              'streams. Mixed, hence "other".')
-LEVEL_NOTE = ('Trusted: pyvc encoding of Python semantics (ints mathematical, dict as map + ghost size, opaque hashable '
-              'keys with total side-effect-free ==), z3 5.1; int(1/threshold) is the intended floor(1/threshold); the size '
-              'clause len <= 2/threshold is a known finding (false for lossy counting).')
-TECHNIQUE = 'contract-based deductive verification (pyvc: ast -> VCs -> z3) of the real source + bounded executable contracts'
-DESIGN_REF = 'DESIGN.md section 3 C20'
-EXPLANATION = ('C20: add() proved against invariant T1-T3 with ghost true counts; readers proved against the map; '
-               'update/most_common/elements/size clause decided by the bounded stand-in.')
-
-CLAUSES = {'*': 'counts_contract'}
-FUNCS = ['ThresholdCounter.add', 'ThresholdCounter.__getitem__', 'ThresholdCounter.get',
-         'ThresholdCounter.__contains__', 'ThresholdCounter.__len__']
-
-
-def deductive(ded, repo, tier):
-    eng = Engine(repo, tc.FILE, classes=tc.CLASSES, contracts=tc.CONTRACTS)
-    for c in tc.ALL:
-        eng.register_class(c)
-    for q in FUNCS:
-        driver.discharge(ded, eng, q, clause_of=CLAUSES, tier=tier)
-    ded.assume('hash/== of keys are total, deterministic and side-effect free; no NaN keys')
-    ded.assume('integers are mathematical (exact for Python ints)')
+from checks._meta import export
+globals().update(export("C20"))
